@@ -250,3 +250,28 @@ def _symbolic_comprehension(self, interp, node, env, it):
 
 
 Lib.symbolic_comprehension = _symbolic_comprehension
+
+
+# ---- np.roll on a 1-D sequence: result[k] = x[(k - shift) mod n]  (assumed numpy semantics; n > 0)
+
+def _roll(self, interp, args, kwargs, node):
+    from .sym import arith, SSeq as _SSeq
+    from .lib import mk_seq, _ssel
+    x, shift = args[0], args[1]
+    if isinstance(x, CList) and isinstance(shift, int):
+        n = len(x.items)
+        return CList([x.items[(k_ - shift) % n] for k_ in range(n)] if n else [], x.kind, x.ekind)
+    if isinstance(x, CList):
+        x = self.to_sseq(interp, x, node)
+    if not isinstance(x, _SSeq) or not isinstance(shift, (int, SInt)):
+        interp.err(node, "np.roll(%r, %r)" % (x, shift))
+    n = x.length
+    k = z3.Int(fresh("rl"))
+    src = tz(arith("%", arith("-", SInt(k), shift), n))
+    out = mk_seq(interp, n, k, _ssel(x, "arr", src), x.kind, x.ekind, _ssel(x, "none", src) if x.none is not None else None)
+    if getattr(x, "wrapk", None):
+        out.wrapk = x.wrapk
+    return out
+
+
+Lib.f_np__roll = _roll
